@@ -16,7 +16,10 @@ PROP = {'drive': ['Faults'],
                        'C18_limited',
                        'C18_sources',
                        'C18_loop_shape',
-                       'C18_scalers'],
+                       'C18_scalers',
+                       'C18_parser_fault',
+                       'C18_parser_unaffected',
+                       'C18_parser_error'],
  # budget = number of corpus fonts / table sets; every fault point k of each is enumerated
  'areas': [('faults', 6, 40)],
  'thorough_seeds': 2,
